@@ -253,6 +253,25 @@ theorem aFree_inv (a : Arena) (i n : Nat) (allc : Bool) (mode : Nat) (nr og : Bo
   · rw [clrR_out _ _ _ _ hr] at hk1
     exact h2 k (Or.inl hk1) hk2
 
+/-- **every fault sequence, arena level**: over every list of allocations, frees and purges with arbitrary answers of the OS, free
+    blocks recorded as committed stay accessible -/
+theorem arena_reachable_inv (ops : List AOp) (a : Arena) (hok : AOk a ops) (h : AInv a) : AInv (ops.foldl aStep a) := by
+  induction ops generalizing a with
+  | nil => exact h
+  | cons op ops ih =>
+    simp only [List.foldl_cons]
+    obtain ⟨h1, h2⟩ := hok
+    apply ih _ h2
+    cases op with
+    | alloc i n c ok => exact aAlloc_inv a i n c ok h
+    | free i n allc mode nr og => exact aFree_inv a i n allc mode nr og h1.1 h h1.2
+    | purge i n nr og => exact aPurge_inv a i n nr og h1 h
+
+/-- the link between the two levels: a segment whose commit mask is full (the only case in which it reports `committed_size == size`
+    when it is freed) is, by the segment invariant, accessible in every unit — the obligation `allCommitted → accessible` of `AOp.ok` -/
+theorem full_mask_means_accessible (s : Seg) (h : SInv s) (hf : isFull s.commit = true) : ∀ k, k < 512 → s.os k = true :=
+  fun k hk => h k ((allSet_iff _ _ _).1 hf k (Nat.zero_le _) (by omega))
+
 -- non-vacuity: a lazily committed segment (info slice committed); a refused commit of the second slice leaves it unrecorded and the span is not handed out;
 -- the retry with the OS granting succeeds and the unit is recorded and accessible
 def seg0 : Seg := { commit := fun k => k == 0, purge := fun _ => false, os := fun k => k == 0, info := 1, slices := 512, base := 0x20000000000 }
